@@ -24,7 +24,7 @@ SPEC = dict(
     required=["sibling_sets", "loads_compared", "show_compared", "dry_update_compared", "bool_spelling:yes",
               "bool_spelling:on", "bool_spelling:1", "bool_spelling:TRUE", "bool_spelling:no", "glob_entries",
               "legacy_section_loads", "explicit_self_entries_with_extra_pattern", "ini_layout:inline", "ini_layout:mixed",
-              "configs_without_file_patterns_section", "ini_mixed_quoting", "ini_quoted_booleans", "toml_string_booleans"],
+              "configs_without_file_patterns_section", "ini_mixed_quoting", "ini_quoted_booleans", "toml_string_booleans", "toml_single_pattern_as_string"],
     anchors=[("config", "_parse_cfg"), ("config", "_parse_toml"), ("config", "_parse_config"),
              ("config", "_parse_cfg_file_patterns"), ("config", "_iter_glob_expanded_file_patterns"),
              ("config", "_parse_raw_config")],
@@ -143,7 +143,12 @@ def serialise(a, syntax, R):
             own = ['current_version = "{version}"'] + (["released as {version} !"] if a["self_entry"] == "with-extra" else [])
             lines.append(f"{q(fname)} = [" + ", ".join(q(p) for p in own) + "]")
         for key, _fn, pats in a["entries"]:
-            lines.append(f"{q(key)} = [" + ", ".join(q(p) for p in pats) + "]")
+            if len(pats) == 1 and fname == ".bumpver.toml" and R.random() < 0.5:
+                # ONE pattern written as a plain TOML string (the counterpart of setup.cfg's `file = pattern` line)
+                lines.append(f"{q(key)} = {q(pats[0])}")
+                spelled["toml_single_pattern_as_string"] = 1
+            else:
+                lines.append(f"{q(key)} = [" + ", ".join(q(p) for p in pats) + "]")
     else:
         quoted = kind != "cfg-unquoted"
         qq = (lambda s: '"' + s + '"') if quoted else (lambda s: s)
@@ -273,6 +278,8 @@ def run_case(ctx, case):
                 ctx.count("ini_quoted_booleans")
             elif k == "toml_string_boolean":
                 ctx.count("toml_string_booleans")
+            elif k == "toml_single_pattern_as_string":
+                ctx.count("toml_single_pattern_as_string")
             else:
                 ctx.count("bool_spelling:" + sp)
     if any("*" in key for key, _f, _p in a["entries"]):
